@@ -4,6 +4,9 @@
 (* for an internal error or a call that does not return.  An outcome record observed from the implementation *)
 (* is  [k |-> "absent"|"instr"|"internal"|"timeout", len, t (Intel rendering), both (renders in both         *)
 (* syntaxes)].                                                                                               *)
+(* The implementation has three stream classes (byte string, file object, virtual address space); each is   *)
+(* observed against this one abstract stream (offs records carry kind = "str" | "file" | "virt"): refinement  *)
+(* means that the three observations of one call satisfy the same SameOut / DisPost obligations.              *)
 EXTENDS Integers, Sequences
 Outcomes == {"absent", "instr"}
 Allowed(o) == o.k \in Outcomes /\ (o.k = "instr" => o.both /\ o.len >= 1)
